@@ -20,8 +20,10 @@ def model(ctx):
     r2 = ctx.tlc("Xid", cfg % (2, "FALSE"), workers=1, label="Xid[split]")
     if r2["violation"] != "Distinct":
         raise Infra("sensitivity: the split read/write model was expected to violate Distinct, got %r" % r2["violation"])
+    # unbounded: TLAPS proves pairwise distinctness of the atomic generator for any set of drawers and any number of draws
+    nobl = ctx.tlapm("XidProof")
     ctx.extra["model"] = dict(atomic_states=r["distinct"], draws=d, procs=3,
-                              split_model_refuted_after_states=r2["distinct"])
+                              split_model_refuted_after_states=r2["distinct"], tlaps_obligations_proved=nobl)
 
 
 def run(ctx):
@@ -119,7 +121,7 @@ def run(ctx):
     ctx.sample(dict(scenario=scen[0], note="ids elided"))
     return vlib.finish(
         ctx, "model_checking",
-        "TLC explores every interleaving of 3 drawers x %d draws of Xid.tla (atomic fetch-and-add: Distinct, PerProcIncreasing, GapFree "
+        "TLAPS proves (XidProof.tla, inductive invariant) that fetch-and-add issues pairwise distinct ids for any number of drawers and draws; TLC explores every interleaving of 3 drawers x %d draws of Xid.tla (atomic fetch-and-add: Distinct, PerProcIncreasing, GapFree "
         "hold; the split read/write variant is refuted, so the invariant is not vacuous). On the code, %s goroutines (GOMAXPROCS %s) "
         "draw ids through every constructor that embeds a generated header (14 entry points) under the race detector; the recorded "
         "per-goroutine id sequences are judged by TLC against the abstract action 'Draw returns an id never returned before' "
